@@ -139,3 +139,24 @@ func (l *CapLogger) Changed() <-chan struct{} {
 	defer l.mu.Unlock()
 	return l.changed
 }
+
+// fmtLogger formats every record the way any real logger does (so that String methods of the arguments run, on the
+// caller's goroutine and under whatever locks the caller holds) and throws the text away.
+type fmtLogger struct{ n int64 }
+
+func (l *fmtLogger) add(f string, a []interface{}) {
+	_ = fmt.Sprintf(f, a...)
+	atomic.AddInt64(&l.n, 1)
+}
+func (l *fmtLogger) Debug(f string, a ...interface{}) { l.add(f, a) }
+func (l *fmtLogger) Info(f string, a ...interface{})  { l.add(f, a) }
+func (l *fmtLogger) Warn(f string, a ...interface{})  { l.add(f, a) }
+func (l *fmtLogger) Error(f string, a ...interface{}) { l.add(f, a) }
+
+// InstallFormattingLogger installs a logger that formats and discards; the returned function reports how many
+// records it formatted.
+func InstallFormattingLogger() func() int64 {
+	l := &fmtLogger{}
+	logging.SetLogger(l)
+	return func() int64 { return atomic.LoadInt64(&l.n) }
+}
